@@ -300,6 +300,31 @@ func (c *Ctx) damageClasses(li, n int) {
 	t[p] = words[0]
 	t[len(t)-1] = ""
 	c.chk("empty-token", l, join(t))
+	// the longest words of the list (by bytes and by code points) with a suffix/prefix/infix added:
+	// any clipping or length-keyed shortcut in the membership test shows here
+	{
+		idx := make([]int, 2048)
+		for i := range idx {
+			idx[i] = i
+		}
+		sort.SliceStable(idx, func(a, b int) bool { return len(words[idx[a]]) > len(words[idx[b]]) })
+		for k := 0; k < 8; k++ {
+			e2 := c.randBytes(n)
+			pos := c.rng.Intn(len(toks) - 1)
+			setGroup(e2, pos, idx[k])
+			t2 := strings.Split(c.specSentence(l, e2), sepOf(li))
+			for _, junk := range []string{"x", "!!", "가", "́", "-not-a-word"} {
+				t3 := append([]string(nil), t2...)
+				t3[pos] = t2[pos] + junk
+				c.chk("longest-word+suffix", l, join(t3))
+			}
+			t3 := append([]string(nil), t2...)
+			t3[pos] = "x" + t2[pos]
+			c.chk("longest-word+prefix", l, join(t3))
+			t3[pos] = t2[pos][:len(t2[pos])/2] + "‍" + t2[pos][len(t2[pos])/2:]
+			c.chk("longest-word+infix", l, join(t3))
+		}
+	}
 	// separators
 	s := join(toks)
 	c.chk("sep-leading", l, " "+s)
